@@ -251,6 +251,34 @@ def parseIPv4 (t : String) : Option Bytes :=
   | some [a, b, c, d] => if a < 256 ∧ b < 256 ∧ c < 256 ∧ d < 256 then some [UInt8.ofNat a, UInt8.ofNat b, UInt8.ofNat c, UInt8.ofNat d] else none
   | _ => none
 
+def hexGroup? (s : String) : Option Nat :=
+  if s.isEmpty || s.length > 4 then none else
+  s.toList.foldl (fun acc c => acc.bind fun a =>
+    let n := c.toNat
+    if 48 ≤ n && n ≤ 57 then some (a * 16 + (n - 48))
+    else if 97 ≤ n && n ≤ 102 then some (a * 16 + (n - 87))
+    else if 65 ≤ n && n ≤ 70 then some (a * 16 + (n - 55))
+    else none) (some 0)
+
+/-- the octets of a ':'-separated run of 16-bit groups; the last group may be a dotted quad -/
+def parseIp6Groups : List String → Option Bytes
+  | [] => some []
+  | [g] => if g.contains '.' then parseIPv4 g else (hexGroup? g).map fun v => [UInt8.ofNat (v / 256), UInt8.ofNat (v % 256)]
+  | g :: rest => do
+    let v ← hexGroup? g
+    let r ← parseIp6Groups rest
+    pure ([UInt8.ofNat (v / 256), UInt8.ofNat (v % 256)] ++ r)
+
+/-- IPv6 text as inet_pton(AF_INET6) reads it (one "::" at most) -/
+def parseIPv6 (t : String) : Option Bytes :=
+  match t.splitOn "::" with
+  | [whole] => (parseIp6Groups (whole.splitOn ":")).bind fun b => if b.length = 16 then some b else none
+  | [l, r] => do
+    let lb ← if l.isEmpty then some [] else parseIp6Groups (l.splitOn ":")
+    let rb ← if r.isEmpty then some [] else parseIp6Groups (r.splitOn ":")
+    if lb.length + rb.length ≤ 14 then some (lb ++ List.replicate (16 - lb.length - rb.length) 0 ++ rb) else none
+  | _ => none
+
 /-- the pattern `compileregex` hands to regcomp for `/re/` or `/re` -/
 def certRegex (t : String) : Option Bytes :=
   if !t.startsWith "/" then none else
@@ -265,7 +293,9 @@ def parseTerm (hexTerm : String) : Option Cert.Term := do
   | "CN" :: rest => (certRegex (":".intercalate rest)).map .cn
   | "SubjectAltName" :: "DNS" :: rest => (certRegex (":".intercalate rest)).map .dns
   | "SubjectAltName" :: "URI" :: rest => (certRegex (":".intercalate rest)).map .uri
-  | ["SubjectAltName", "IP", a] => (parseIPv4 a).map .ip
+  | "SubjectAltName" :: "IP" :: rest =>
+    let a := ":".intercalate rest
+    ((parseIPv4 a).orElse fun _ => parseIPv6 a).map .ip
   | ["SubjectAltName", "rID", o] => some (.rid o)
   | "SubjectAltName" :: "otherName" :: o :: rest => (certRegex (":".intercalate rest)).map (.other o)
   | _ => none
@@ -368,7 +398,7 @@ def dynSpec (cmd id : Bytes) (impl : List String) (alts : List Bytes := []) : St
     let r := parts.getLast!
     if r.isEmpty || !(r.all fun c => c = 46 || c = 45 || (48 ≤ c.toNat && c.toNat ≤ 57) || (65 ≤ c.toNat && c.toNat ≤ 90) || (97 ≤ c.toNat && c.toNat ≤ 122)) then none
     else some r
-  let started := impl.any fun t => t.startsWith "sub:" || t.startsWith "exec:" || t.startsWith "dns:" || t.startsWith "arg:"
+  let started := impl.any fun t => t.startsWith "sub:" || t.startsWith "exec:" || t.startsWith "dns:" || t.startsWith "dns-with-search-list:" || t.startsWith "arg:"
   match realm with
   | none => if started then "bad C20:lookup-started-without-an-acceptable-realm-part" else "ok"
   | some r0 =>
@@ -385,6 +415,7 @@ def dynSpec (cmd id : Bytes) (impl : List String) (alts : List Bytes := []) : St
       else if t.startsWith "exec:" then
         (if wantDns.isSome then some "bad C20:command-executed-for-a-dns-form"
          else if t = s!"exec:{toHex cmd};{toHex cmd},{toHex r}" then none else some "bad C20:command-or-argument-vector-differs-from-[command,realm]")
+      else if t.startsWith "dns-with-search-list:" then some "bad C20:dns-question-asked-through-the-resolvers-search-list-not-for-exactly-the-realm-text"
       else if t.startsWith "dns:" then
         (match wantDns with
          | some (ty, n) => if t = s!"dns:{ty}:{toHex n}" then none else some "bad C20:dns-question-not-built-from-exactly-the-realm-text"
@@ -464,6 +495,10 @@ def model (op : String) (args : List String) : String :=
     | some (ty, sp, src, cs) =>
       match Addr.findConf ty src cs sp with | some i => toString i | none => "none"
     | none => "bad-op"
+  | "addreq", [_, a, pa, b, pb] =>
+    match ofHex a, pa.toNat?, ofHex b, pb.toNat? with
+    | some a, some pa, some b, some pb => if Addr.addrEqual a pa b pb then "1" else "0"
+    | _, _, _, _ => "bad-op"
   | "pwdrecrypt", [p, os, ns, oa, na, osalt, nsalt] =>
     match ofHex p, ofHex os, ofHex ns, ofHex oa, ofHex na, ofHex osalt, ofHex nsalt with
     | some p, some os, some ns, some oa, some na, some osalt, some nsalt =>
@@ -545,6 +580,13 @@ def spec (op : String) (args impl : List String) : String :=
     | some a, some b, some len =>
       if (Spec.leadingBitsEq a b len) == (r == "1") && (r == "1" || r == "0") then "ok" else "bad prefix-bits"
     | _, _, _ => "bad-op"
+  | "addreq", [_, a, pa, b, pb], [r] =>
+    match ofHex a, pa.toNat?, ofHex b, pb.toNat? with
+    | some a, some pa, some b, some pb =>
+      -- C10: one association = one source address AND port, every octet of it
+      if (r == "1") == (a == b && pa == pb) && (r == "1" || r == "0") then "ok"
+      else "bad C10:two-different-sources-taken-for-one-udp-association-or-one-source-for-two"
+    | _, _, _, _ => "bad-op"
   | "findconf", args, [r] =>
     match parseFind args with
     | some (ty, sp, src, cs) =>
